@@ -286,6 +286,18 @@ Definition prim_tree (o : Z) (ws : list val) : tree rv :=
       if (o =? 1) || (o =? 5) then TRes (iadd a b) (fun z => Leaf (RVal (VT z)))
       else if (o =? 2) || (o =? 6) then TRes (isub a b) (fun z => Leaf (RVal (VT z)))
       else Leaf (apply_op c o ws)
+  | [VT a; VD b] =>
+      if (o =? 3) || (o =? 7) then TRes (imul a b) (fun z => Leaf (RVal (VT z)))
+      else if (o =? 4) || (o =? 8) then TRes (idiv a b) (fun z => Leaf (RVal (VT z)))
+      else Leaf (apply_op c o ws)
+  | [VD a; VT b] =>
+      if o =? 3 then TRes (imul a b) (fun z => Leaf (RVal (VT z))) else Leaf (apply_op c o ws)
+  | [VD a; VD b] =>
+      if (o =? 1) || (o =? 5) then TRes (iadd a b) (fun z => Leaf (RVal (VD z)))
+      else if (o =? 2) || (o =? 6) then TRes (isub a b) (fun z => Leaf (RVal (VD z)))
+      else if (o =? 3) || (o =? 7) then TRes (imul a b) (fun z => Leaf (RVal (VD z)))
+      else if (o =? 4) || (o =? 8) then TRes (idiv a b) (fun z => Leaf (RVal (VD z)))
+      else Leaf (apply_op c o ws)
   | [VQ a; VQ b] =>
       if (o =? 1) || (o =? 5) then tq (qadd c a b) VQ
       else if (o =? 2) || (o =? 6) then tq (qsub c a b) VQ
